@@ -80,6 +80,41 @@ def _forms(a, b, c):
     return forms
 
 
+class HintedIter(object):
+    """One-shot iterator whose __length_hint__ is only an estimate (PEP 424 allows an over- or
+    an under-estimate): a reader that skips lines, a wrapper with an approximate total."""
+
+    def __init__(self, xs, hint):
+        self._it = iter(xs)
+        self._hint = hint
+
+    def __iter__(self):
+        return self
+
+    def __next__(self):
+        return next(self._it)
+
+    def __length_hint__(self):
+        return self._hint
+
+
+def alternately(g1, g2):
+    """Consume two generators in turn; returns the two result lists."""
+    out = ([], [])
+    live = [iter(g1), iter(g2)]
+    turn = 0
+    while any(g is not None for g in live):
+        i = turn % 2
+        turn += 1
+        if live[i] is None:
+            continue
+        try:
+            out[i].append(next(live[i]))
+        except StopIteration:
+            live[i] = None
+    return out
+
+
 class Collect(object):
     def __init__(self):
         self.got = []
@@ -116,6 +151,21 @@ def run_case(r, obs):
                 got2 = list(s.run(iter(xs)))
                 obs.check(got2 == ref, "slice-second-run-differs",
                           "second run of Slice%r on %r = %r, expected %r" % (args, xs, got2, ref))
+                if n in (3, 6, nmax):
+                    # one-shot iterators whose length hint is an estimate
+                    for hint in (n + 3, max(0, n - 2), 1, 2 * n + 1):
+                        goth = list(lena.flow.Slice(*args).run(HintedIter(xs, hint)))
+                        obs.count("slice_runs")
+                        obs.check(goth == ref, "slice-run-differs:iterator-with-estimated-length",
+                                  "Slice%r.run(iterator over %r whose __length_hint__ is %d) = %r, "
+                                  "list slicing gives %r" % (args, xs, hint, goth, ref))
+                    # two runs of one instance alive at the same time
+                    ys2 = list(range(500, 500 + n))
+                    ga, gb = alternately(s.run(iter(xs)), s.run(iter(ys2)))
+                    obs.check(ga == ref and gb == ys2[slice(*args)],
+                              "slice-run-differs:two-live-runs-of-one-instance",
+                              "two runs of one Slice%r consumed alternately give %r and %r, "
+                              "expected %r and %r" % (args, ga, gb, ref, ys2[slice(*args)]))
     elif k == "fill":
         a, b, c = r["args"]
         horizon = 40
@@ -134,6 +184,31 @@ def run_case(r, obs):
                         stopped_at = i
                         break
                 obs.count("fill_into_histories")
+                if n in (4, nmax):
+                    # deep copies (what SplitIntoBins / MapBins / Vectorize make of a sequence)
+                    # filled in turn with the original: each one slices its own flow
+                    import copy
+                    import warnings
+                    with warnings.catch_warnings():
+                        warnings.simplefilter("ignore")
+                        group = [lena.flow.Slice(*args)]
+                        group += [copy.deepcopy(group[0]), copy.deepcopy(group[0])]
+                    cols = [Collect() for _ in group]
+                    done = [False] * len(group)
+                    for x in xs:
+                        for gi, g in enumerate(group):
+                            if done[gi]:
+                                continue
+                            try:
+                                g.fill_into(cols[gi], x + 1000 * gi)
+                            except lena.core.LenaStopFill:
+                                done[gi] = True
+                    for gi, c in enumerate(cols):
+                        obs.check(c.got == [v + 1000 * gi for v in ref],
+                                  "slice-fill_into-differs:deep-copies-filled-in-turn",
+                                  "Slice%r and two deep copies of it filled in turn over %r: "
+                                  "element %d filled %r, expected %r"
+                                  % (args, xs, gi, c.got, [v + 1000 * gi for v in ref]))
                 if ref:
                     obs.nontrivial = True
                 obs.check(col.got == ref, "slice-fill_into-differs",
@@ -281,6 +356,15 @@ def run_case(r, obs):
             got = list(mk().run(xs))
             obs.check(got == ref, "runningchunkby-differs",
                       "RunningChunkBy(%d,%s).run(list) = %r, expected %r" % (size, cont, got, ref))
+            # two runs of one instance alive at once (the element twice in one sequence,
+            # two flows zipped): each is the sliding window of its own flow
+            el = mk()
+            ys = list(range(100, 100 + n + 1))
+            refy = [conv(ys[i:i + size]) for i in range(0, len(ys) - size + 1)]
+            ga, gb = alternately(el.run(iter(xs)), el.run(iter(ys)))
+            obs.check(ga == ref and gb == refy, "runningchunkby-differs:two-live-runs",
+                      "two runs of one RunningChunkBy(%d,%s) consumed alternately give %r and "
+                      "%r, expected %r and %r" % (size, cont, ga, gb, ref, refy))
             obs.count("chunk_runs")
 
 LEVEL_TEXT = ("Exhaustive enumeration of the finite domain the property names (all start/stop "
